@@ -87,6 +87,7 @@ def run(tier):
             out.fail(key_of(pr["problem"]), {"mode": pr["mode"], "input": pr["input"], "problem": pr["problem"]})
     # binding to the real CLI: a slice of inputs that do not parse must make `incan --check/--parse/fmt` exit 1 (not 101/signal)
     cli = cli_slice(out)
+    cli.update(multifile_locations(out))
     cov = {
         "evaluations": tot["inputs"],
         "distinct_nontrivial": len(outcomes),
@@ -95,7 +96,7 @@ def run(tier):
         "its duplication and its swap with the next token; nesting ladders (brackets, blocks, unary, calls, "
         "types, f-strings, chains) to depth 64; 14 type names x 8 argument lists (every arity 0..4, bare, nested) in 46 consuming positions (match with every "
         "constructor pattern, ?, for, index, methods, unpacking, tuple fields, returns of every literal kind, annotations, fields, enum payloads, newtypes, comprehensions, "
-        "operators, calls, nested in List/Dict/Option, trait methods, const, await); 58 characters (one or more per Unicode class: letters, non-ASCII digits, other numbers, letter numbers, combining marks, connectors, symbols, astral, format characters, separators, ASCII punctuation) as an identifier character in 5 positions of a name used consistently in every binding position of an otherwise well-typed program; 96 unusual literal / identifier / operator tokens in 26 expression, pattern, type and declaration positions; distinct = distinct (stage statuses, normalised first diagnostic) outcome",
+        "operators, calls, nested in List/Dict/Option, trait methods, const, await); 58 characters (one or more per Unicode class: letters, non-ASCII digits, other numbers, letter numbers, combining marks, connectors, symbols, astral, format characters, separators, ASCII punctuation) as an identifier character in 5 positions of a name used consistently in every binding position of an otherwise well-typed program; 75 two-file projects (what an imported declaration is built from x dependency prefix x how the entry file uses it) through the real CLI, every printed location checked against the file it names; 96 unusual literal / identifier / operator tokens in 26 expression, pattern, type and declaration positions; distinct = distinct (stage statuses, normalised first diagnostic) outcome",
         "samples": ["def f() -> int:(", "match x:\n    case \"s\"=>0", {"file": files[0], "edit": "delete char 17"}],
         "exhaustive": True,
         "inputs_by_mode": by_mode,
@@ -110,6 +111,80 @@ def run(tier):
             "--emit-rust is exercised through IrCodegen::try_generate exactly as cli::commands::emit_rust calls it; a slice is replayed through the real binary",
         ],
     )
+
+
+def multifile_locations(out):
+    """Diagnostics of multi-file projects: every `--> file:line:col` the real CLI prints must name a file of the project and a
+    position inside it. Projects: an entry file that uses an imported const / function / model in a const initializer, a
+    function body or an annotation, x what the dependency's declaration is built from (literal, private consts, string
+    concatenation, an unknown name), x a long or short prefix in the dependency, x an error or none in the entry file."""
+    import itertools
+    import os
+    import shutil
+    import tempfile
+
+    common.build(need_cli=True)
+    dep_defs = {
+        "literal": "pub const MAX_ITEMS = 40\n",
+        "private_consts": "const BASE = 10\nconst SCALE = 4\npub const MAX_ITEMS = BASE * SCALE\n",
+        "private_str_consts": 'const HEAD = "a"\nconst TAIL = "b"\npub const MAX_ITEMS = HEAD + TAIL\n',
+        "unknown_name": "pub const MAX_ITEMS = NOWHERE + 1\n",
+        "function": "def hidden() -> int:\n    return 1\n\n\npub def MAX_ITEMS() -> int:\n    return hidden() + nope\n",
+    }
+    prefixes = {"short": "", "long_docstring": '"""' + "Limits of the system. " * 20 + '"""\n\n', "many_lines": "# c\n" * 40}
+    uses = {
+        "const_initializer": "from limits import MAX_ITEMS\n\n\nconst K = MAX_ITEMS\n\n\ndef main() -> None:\n    println(1)\n",
+        "const_expression": "from limits import MAX_ITEMS\n\n\nconst K = MAX_ITEMS + 1\nconst L = [MAX_ITEMS, K]\n\n\ndef main() -> None:\n    println(1)\n",
+        "function_body": "from limits import MAX_ITEMS\n\n\ndef main() -> None:\n    x = MAX_ITEMS\n    println(nope_in_main)\n",
+        "annotation_mismatch": 'from limits import MAX_ITEMS\n\n\ndef main() -> None:\n    x: str = MAX_ITEMS + "é"\n',
+        "alias": "from limits import MAX_ITEMS as CAP\n\n\nconst K = CAP\n\n\ndef main() -> None:\n    println(K)\n",
+    }
+    n_loc = n_runs = 0
+    root = tempfile.mkdtemp(dir=common.BUILD, prefix="c11mf")
+    env = {"PATH": os.environ.get("PATH", ""), "RUST_LOG": "off"}
+    for (dk, dep), (pk, pre), (uk, use) in itertools.product(dep_defs.items(), prefixes.items(), uses.items()):
+        d = os.path.join(root, f"{dk}_{pk}_{uk}")
+        os.makedirs(d)
+        files = {"main.incn": use, "limits.incn": pre + dep}
+        for f, t in files.items():
+            open(os.path.join(d, f), "w", encoding="utf-8").write(t)
+        for flag in (["--check"], ["--emit-rust"]):
+            r = subprocess.run([common.INCAN, "--no-banner", "--color", "never"] + flag + ["main.incn"], cwd=d, env=env, capture_output=True, text=True, timeout=120)
+            n_runs += 1
+            text = re.sub(r"\x1b\[[0-9;]*m", "", r.stdout + r.stderr)
+            case = {"mode": "multi-file", "input": json.dumps(files), "dependency": dk, "prefix": pk, "use": uk, "flag": flag[0]}
+            if r.returncode not in (0, 1):
+                out.fail("multifile-abnormal-exit", {**case, "problem": f"incan {flag[0]} exited {r.returncode}: {text[-300:]}"})
+                continue
+            for fname, line, col in re.findall(r"--> (\S+?):(\d+):(\d+)", text):
+                n_loc += 1
+                base = os.path.basename(fname)
+                if base not in files:
+                    out.fail("multifile-diagnostic-names-a-file-outside-the-project", {**case, "problem": f"location {fname}:{line}:{col}"})
+                    continue
+                lines = files[base].split("\n")
+                ln, cl = int(line), int(col)
+                if ln < 1 or ln > len(lines) or cl < 1 or cl > len(lines[ln - 1]) + 1:
+                    out.fail("multifile-diagnostic-location-outside-the-file", {**case, "problem": f"location {base}:{line}:{col} but the file has {len(lines)} lines" + (f", line {ln} has {len(lines[ln - 1])} characters" if 1 <= ln <= len(lines) else "") + f"; output: {text[-400:]}"})
+    shutil.rmtree(root, ignore_errors=True)
+    # the same projects in-process: every diagnostic for the entry file must have a span inside the entry text (the CLI clamps
+    # a span past the end to the last line, which hides a diagnostic that belongs to another file)
+    from . import serve
+
+    combos = list(itertools.product(dep_defs.items(), prefixes.items(), uses.items()))
+    reqs = [{"id": i, "op": "project", "src": use, "deps": [{"name": "limits", "src": pre + dep}]} for i, ((dk, dep), (pk, pre), (uk, use)) in enumerate(combos)]
+    pres = serve.run_requests(reqs)
+    n_diag = 0
+    for i, ((dk, dep), (pk, pre), (uk, use)) in enumerate(combos):
+        r = pres[i]
+        case = {"mode": "multi-file", "input": json.dumps({"main.incn": use, "limits.incn": pre + dep}), "dependency": dk, "prefix": pk, "use": uk}
+        if r.get("crashed") or r.get("panic"):
+            out.fail("multifile-checker-panicked", {**case, "problem": "type checker panicked on a two-file project: " + str(r.get("panic") or r.get("stderr"))[:200]})
+            continue
+        n_diag += len(r.get("errs") or [])
+        for pr in r.get("problems") or []:
+            out.fail("multifile-" + key_of(pr), {**case, "problem": pr + " (diagnostic reported for the entry file of a two-file project)"})
+    return {"multifile_runs": n_runs, "multifile_locations_checked": n_loc, "multifile_diagnostics_validated_in_process": n_diag}
 
 
 def cli_slice(out):
@@ -136,6 +211,13 @@ def replay(path):
     common.build()
     rec = json.load(open(path, encoding="utf-8"))
     src = rec["case"]["input"]
+    if rec["case"].get("mode") == "multi-file":
+        from . import serve
+
+        files = json.loads(src)
+        r = serve.run_requests([{"id": 0, "op": "project", "src": files["main.incn"], "deps": [{"name": "limits", "src": files["limits.incn"]}]}])[0]
+        print(json.dumps(r, indent=1, ensure_ascii=False))
+        return 1 if (r.get("problems") or r.get("panic") or r.get("crashed")) else 0
     if src is None:
         print("no input recorded")
         return 2
